@@ -135,7 +135,7 @@ def regenerate(run):
                 run.oblige("go2deep -wrappers: Store, LoadOrStore, LoadAndStore, LoadOrCompute, Compute, LoadAndDelete, Delete of map.go / mapof.go are one call of doCompute each (function argument and flags printed)", rc3 == 0, err3.strip())
             # the lookup path of MapOf (Load), printed for the deep embedding of the table layer
             rc4, out4, err4 = sh([os.path.join(BUILD, "go2deep"), "-table", REPO, os.path.join(LEAN, "CacheVerif", "Generated", "TableLoad.lean")])
-            if run.pid in ("C03", "C04", "C08", "C10", "C11", "C16"):
+            if run.pid in ("C03", "C04", "C08", "C10", "C11", "C12", "C16"):
                 run.oblige("go2deep -table: the bodies of (*MapOf).Load, (*Map).Load, sumSize of both tables and appendToBucketOf are inside the Go subset of the table-layer deep embedding (locals, leaf functions and constants of internal/xsync, atomic loads, the three forms of for and for-range over the stripes, continue, a label with goto, named results, stores through a bucket pointer and new(bucketOfPadded))", rc4 == 0, err4.strip())
             if rc != 0:
                 # keep the Lean project buildable for the other obligations: the generated files stay as they were
